@@ -38,15 +38,19 @@ var (
 )
 
 // c10PDFPageTreeCycle: does the /Kids graph of the (uncompressed) objects of a PDF contain a cycle? Independent,
-// deliberately over-approximating text scan: an object that is a bare array counts as a Kids array.
+// deliberately over-approximating text scan: an object that is a bare array counts as a Kids array, and a kid whose
+// object is not in the text (renumbered, or inside an object stream) counts as a possible way back (the parser follows
+// xref offsets, not the numbers written in the text).
 func c10PDFPageTreeCycle(b []byte) bool {
 	locs := c10ObjRe.FindAllSubmatchIndex(b, -1)
 	if len(locs) == 0 || len(locs) > 20000 {
 		return false
 	}
 	edges := map[int][]int{}
+	present := map[int]bool{}
 	for i, l := range locs {
 		n, _ := strconv.Atoi(string(b[l[2]:l[3]]))
+		present[n] = true
 		end := len(b)
 		if i+1 < len(locs) {
 			end = locs[i+1][0]
@@ -66,6 +70,13 @@ func c10PDFPageTreeCycle(b []byte) bool {
 			for _, r := range c10RefRe.FindAllSubmatch(s, -1) {
 				k, _ := strconv.Atoi(string(r[1]))
 				edges[n] = append(edges[n], k)
+			}
+		}
+	}
+	for _, ks := range edges {
+		for _, k := range ks {
+			if _, ok := edges[k]; !ok && !present[k] {
+				return true
 			}
 		}
 	}
@@ -136,8 +147,8 @@ func c10M3U8AttachCost(b []byte) int64 {
 }
 
 var (
-	c10HugeNumRe     = regexp.MustCompile(`(?:^|[\s\[(/\]>])[+-]?0*[1-9]\d{9,}`)
-	c10OverflowNumRe = regexp.MustCompile(`(?:^|[\s\[(/\]>])[+-]?0*[1-9]\d{18,}`)
+	c10HugeNumRe     = regexp.MustCompile(`(?:^|[\s\x00\[(/\]>])[+-]?0*[1-9]\d{9,}`)
+	c10OverflowNumRe = regexp.MustCompile(`(?:^|[\s\x00\[(/\]>])[+-]?0*[1-9]\d{18,}`)
 )
 
 // c10PDFHugeNumber: a numeric token of 10 or more significant digits (stream /Length, directly or through a
